@@ -4,11 +4,13 @@ package dtls
 
 import (
 	"bytes"
+	"context"
 	"encoding/gob"
 	"errors"
 	"fmt"
 	"net"
 	"reflect"
+	"strings"
 	"sync"
 	"sync/atomic"
 	"testing"
@@ -674,6 +676,98 @@ func vfC19Suites() []string {
 	return out
 }
 
+// vfC19LostFinalFlight: the DTLS 1.2 server's handshake is complete the moment it has sent its final flight. That
+// flight is lost; the server's state is exported and resumed at this point ("at any point between records"). The
+// untouched client retransmits its own last flight and must still be able to finish and exchange data.
+func vfC19LostFinalFlight(t *testing.T, res *vfResult, sn string) {
+	res.Eval(1)
+	id := "lost-final-flight|" + sn
+	cfg := vfBaseCfg(vfSuiteByName(sn), "ecdsa")
+	co, so := cfg.Options(nil, nil)
+	n := vfNewNet()
+	var lose atomic.Bool
+	lose.Store(true)
+	n.SetOnSend(func(n *vfNet, w *vfWire) {
+		if lose.Load() && w.From == "s" && strings.Contains(vfKind(w.Data), "ChangeCipherSpec") {
+			return // the server's final flight never arrives
+		}
+		n.Deliver(w.Dst, w.Data, vfAddrOf(w.From))
+	})
+	cep, sep := n.Endpoint("c", vfClientAddr), n.Endpoint("s", vfServerAddr)
+	ssock := &vfDetach{ep: sep}
+	cc, err := ClientWithOptions(cep, vfAddr(vfServerAddr), co...)
+	if err != nil {
+		return
+	}
+	sc, err := ServerWithOptions(ssock, vfAddr(vfClientAddr), so...)
+	if err != nil {
+		return
+	}
+	cdone := make(chan error, 1)
+	go func() {
+		ctx, cancel := context.WithTimeout(context.Background(), 2*time.Minute)
+		defer cancel()
+		cdone <- cc.HandshakeContext(ctx)
+	}()
+	sctx, scancel := context.WithTimeout(context.Background(), 30*time.Second)
+	serr := sc.HandshakeContext(sctx)
+	scancel()
+	res.NonTrivial(id)
+	if serr != nil {
+		res.Count("lost_final_flight_server_not_established", 1)
+		_ = sc.Close()
+		_ = cc.Close()
+		<-cdone
+		synctest.Wait()
+
+		return
+	}
+	st, ok := sc.ConnectionState()
+	var st2 State
+	raw, merr := st.MarshalBinary()
+	if !ok || merr != nil || st2.UnmarshalBinary(raw) != nil {
+		res.Count("lost_final_flight_export_failed", 1)
+		_ = sc.Close()
+		_ = cc.Close()
+		<-cdone
+		synctest.Wait()
+
+		return
+	}
+	ssock.Detach()
+	_ = sc.Close()
+	synctest.Wait()
+	_ = sep.SetReadDeadline(time.Time{})
+	lose.Store(false) // from here on the path is clean
+	rs, err := ResumeWithOptions(&st2, &vfDetach{ep: sep}, vfAddr(vfClientAddr))
+	if err != nil {
+		res.Count("lost_final_flight_resume_failed", 1)
+		_ = cc.Close()
+		<-cdone
+		synctest.Wait()
+
+		return
+	}
+	go func() {
+		buf := make([]byte, 2048)
+		for {
+			if _, err := rs.Read(buf); err != nil {
+				return
+			}
+		}
+	}()
+	cerr := <-cdone
+	res.Count("lost_final_flight_cases", 1)
+	if cerr != nil {
+		res.Violate("C19:peer-cannot-finish-handshake-after-resume:final-flight-lost",
+			fmt.Sprintf("%s: the server had completed its handshake (final flight sent, lost on the way) and was exported and resumed; the untouched client retransmitted its last flight for two minutes and never completed: %v", id, cerr),
+			map[string]any{"lost_final_flight": sn})
+	}
+	_ = rs.Close()
+	_ = cc.Close()
+	synctest.Wait()
+}
+
 func TestVF_C19(t *testing.T) {
 	vfGetPKI()
 	res := vfNewResult("C19", "export/resume at every point (i, j) of a payload exchange for every DTLS 1.2 suite x {no CID, CID, zero-length CID} x SRTP x ALPN x "+
@@ -781,6 +875,8 @@ func TestVF_C19(t *testing.T) {
 		}
 	}
 	vfBubbles(t, len(cors), func(t *testing.T, i int) { vfC19Corrupt(t, res, cors[i].c, cors[i].kind, cors[i].pos) })
+	lff := []string{"ECDSA-GCM128", "ECDSA-CBC"}
+	vfBubbles(t, len(lff), func(t *testing.T, i int) { vfC19LostFinalFlight(t, res, lff[i]) })
 	// DTLS 1.3 state is refused
 	synctest.Test(t, func(t *testing.T) {
 		cfg := vfBaseCfg(vfSuiteByName("13-GCM128"), "ecdsa")
